@@ -157,6 +157,9 @@ def apply_op(mab, op, catch=True):
             return canon("cold_arms", mab.cold_arms)
         if name == "arms":
             return [py(a) for a in mab.arms]
+        if name == "policies":
+            # the configuration as the public properties report it (hyper-parameters are state too)
+            return [repr(mab.learning_policy), repr(mab.neighborhood_policy)]
     except Exception as e:  # noqa: the library's reaction is an output like any other
         if not catch:
             raise
@@ -168,7 +171,7 @@ def run_ops(mab, ops, catch=True):
     return [apply_op(mab, op, catch) for op in ops]
 
 
-QUERY_OPS = ("predict", "predict_expectations", "cold_arms", "arms", "predict_series",
+QUERY_OPS = ("predict", "predict_expectations", "cold_arms", "arms", "policies", "predict_series",
              "predict_expectations_series", "predict_tiled", "predict_expectations_tiled")
 TRAIN_OPS = ("fit", "partial_fit")
 
